@@ -104,7 +104,7 @@ fn scheds_for(wp: &WProg, arrival: &[E], b: &[E]) -> Vec<Sched> {
     }
 }
 
-fn final_of(wp: &WProg, sc: &Sched) -> Final {
+pub fn final_of(wp: &WProg, sc: &Sched) -> Final {
     let p = &wp.prog;
     match vf_explore::catch(|| (p.exec)(sc)) {
         Ok(mut obs) => {
@@ -131,22 +131,8 @@ fn check_group(wp: &WProg, base: &[E], b: &[E], st: &mut Stats) -> bool {
             st.eval();
             st.outcome(&(p.name, &fin));
             let input = fmt_input(base, b, 1, p.uses_b, false);
-            if let Some(exp) = &expect {
-                if &fin != exp {
-                    if final_of(wp, &sc) != fin {
-                        machinery(&format!("{}: non-reproducing result", p.name));
-                    }
-                    st.violation(
-                        format!("C32:{}:reference", p.name),
-                        format!("{} [`{}`] on denoted input {input}: physical arrival {} yields {} but the expected result is {}",
-                            wp.site, p.desc, sc.to_json(), fin.to_json(), exp.to_json()),
-                        json!({"kind": "reference", "program": p.name, "schedules": [sc.to_json()], "denoted_input": format!("{base:?}")}),
-                    );
-                    return false;
-                }
-            }
             match &first {
-                None => first = Some((fin, sc)),
+                None => first = Some((fin.clone(), sc.clone())),
                 Some((f0, s0)) => {
                     if &fin != f0 {
                         if final_of(wp, &sc) != fin || &final_of(wp, s0) != f0 {
@@ -160,6 +146,21 @@ fn check_group(wp: &WProg, base: &[E], b: &[E], st: &mut Stats) -> bool {
                         );
                         return false;
                     }
+                }
+            }
+            if let Some(exp) = &expect {
+                if &fin != exp {
+                    if final_of(wp, &sc) != fin {
+                        machinery(&format!("{}: non-reproducing result", p.name));
+                    }
+                    st.violation(
+                        format!("C32:{}:reference", p.name),
+                        format!("{} [`{}`] on denoted input {input}: physical arrival {} yields {} but the expected result is {}",
+                            wp.site, p.desc, sc.to_json(), fin.to_json(), exp.to_json()),
+                        json!({"kind": "reference", "program": p.name, "schedules": [sc.to_json()],
+                               "denoted_a": Sched { s: 1, ticks: vec![base.iter().map(|e| (0u8, *e)).collect()], trailing: 0 }.to_json()}),
+                    );
+                    return false;
                 }
             }
         }
